@@ -647,6 +647,20 @@ func (k *checker) conform(mi *msgInfo, data []byte, what string, t *tally) {
 	t.outcome("accept")
 	if ok, i := valsEqual(mi.layout, want, mi.read(out)); !ok {
 		c.Violation("Unmarshal value differs from RFC decoding ("+mi.name+", "+what+")", map[string]any{"input": fmt.Sprintf("%x", clip(data)), "field": mi.typ.Field(mi.fields[i]).Name})
+		return
+	}
+	// the same input into a destination that still holds an earlier message (callers reuse
+	// message structs): every field must be overwritten, the result is the same
+	dirty := mi.fill(k.a.base(mi, 1))
+	in2 := append([]byte(nil), data...)
+	pan, pv, _ = vf.Protect(func() { err = ssh.Unmarshal(in2, dirty.Interface()) })
+	t.evals++
+	if pan || err != nil {
+		c.Violation("Unmarshal into a reused destination fails or panics ("+mi.name+", "+what+")", map[string]any{"input": fmt.Sprintf("%x", clip(data)), "err": fmt.Sprint(err), "panic": fmt.Sprint(pv)})
+		return
+	}
+	if ok, i := valsEqual(mi.layout, want, mi.read(dirty)); !ok {
+		c.Violation("Unmarshal into a reused destination keeps data of the earlier message ("+mi.name+", "+what+")", map[string]any{"input": fmt.Sprintf("%x", clip(data)), "field": mi.typ.Field(mi.fields[i]).Name})
 	}
 }
 
